@@ -312,6 +312,22 @@ func generateValidatorChain(rule tagparser.TagRule, fieldType reflect.Type) stri
 				return fmt.Sprintf(".Max(%s)", arg)
 			}
 		}
+	case "length":
+		if len(rule.Params) > 0 {
+			if n, err := strconv.Atoi(rule.Params[0]); err == nil {
+				return fmt.Sprintf(".Length(%d)", n)
+			}
+		}
+	case "nonempty":
+		return ".Min(1)"
+	case "positive":
+		return ".Positive()"
+	case "negative":
+		return ".Negative()"
+	case "nonnegative":
+		return ".NonNegative()"
+	case "nonpositive":
+		return ".NonPositive()"
 	case "email":
 		return ".Email()"
 	case "url":
@@ -417,7 +433,9 @@ func ruleApplies(name string, t reflect.Type) bool {
 	switch name {
 	case "min", "max":
 		return numeric || t.Kind() == reflect.String || t.Kind() == reflect.Slice || t.Kind() == reflect.Map
-	case "gt", "gte", "lt", "lte":
+	case "length", "nonempty":
+		return t.Kind() == reflect.String || t.Kind() == reflect.Slice || t.Kind() == reflect.Map
+	case "gt", "gte", "lt", "lte", "positive", "negative", "nonnegative", "nonpositive":
 		return numeric
 	case "email", "url", "ipv4", "ipv6", "regex", "trim", "lowercase", "uppercase":
 		return t.Kind() == reflect.String
